@@ -7,7 +7,19 @@ import oscgen as G
 import jetgen as J
 
 ID = "C01"
-GEN = ["gen_particle_tables", "gen_genflow"]
+GEN = ["gen_particle_tables", "gen_genflow", "gen_particle_init", "gen_jetscapeloader", "gen_oscarloader"]
+EXTRA_PROPERTY_FILES = ["SrcParticleInit", "SrcJetscapeLoader", "SrcOscarLoader"]     # Particle.py: construction of a particle from one line regenerated and proved equal to mk_particle / mk_jet_particle
+SOURCE_TIE_NOTE = ('OscarLoader.py (every method; Properties/SrcOscarLoader.v, 19 theorems: load / set_particle_list / header scan'
+    ' / set_num_events byte-level backward search / format sniffing / impact_parameter equal the hand model Model/O'
+    'scar.v on rendered texts whose tokens are blank- and newline-free; IC/Photons header scans translated but with'
+    'out a hand-model counterpart), JetscapeLoader.py (all 13 methods; SrcJetscapeLoader.v, 20 theorems, equal to M'
+    'odel/Jetscape.v under lines_ok/trailer_last/plain_ws) and Particle.py construction from one line (__init__, __'
+    'initialize_from_array, setters/getters reached, mass_from_energy_momentum, charge_from_pdg; SrcParticleInit.v,'
+    ' 16 theorems: = mk_particle / mk_jet_particle for every format string, token list and attribute list incl. err'
+    'or classes) are regenerated on every run by gen_oscarloader / gen_jetscapeloader / gen_particle_init (fail-clo'
+    'sed, nothing pinned textually inside the method bodies) over the runtimes Model/OscarLoaderRt.v, JetscapeLoade'
+    'rRt.v, ParticleInitRt.v and proved equal to the hand models; model/source differences found by the builders li'
+    'e outside the compared domain and are listed in DESIGN.md 11.6')
 ALLOWED_AXIOMS = []
 TRUSTED = [
     "Coq 8.16.1 kernel + vm_compute (no native_compute); every theorem closed under the global context",
